@@ -560,6 +560,10 @@ ErrorCode Library::write_oas(const char* filename, double circle_tolerance,
                     // Written inline in the PLACEMENT record when the cell is not in the library
                     len = strlen(ref->name);
                     if (len > string_max) string_max = len;
+                } else if (ref->type == ReferenceType::Cell) {
+                    // Also written inline when the referenced cell is not part of this library
+                    len = strlen(ref->cell->name);
+                    if (len > string_max) string_max = len;
                 }
             }
 
